@@ -60,7 +60,8 @@ func VH_C19_next() {
 	sdb.VerifReach("end")
 }
 
-//verif:bounds table t(a,b,c) x select lists {*}, {b}, {*, a}, {c, *, c}, {rowid, *}; unknown table
+//verif:bounds table t(a,b,c) x every select list of 1..4 items (thorough: 1..5) drawn from {*, a, b, c, ROWID}, written as SQL text and parsed by the real parser (so the column slice has the parser's length and capacity); unknown table
+//verif:shards 5
 func VH_C19_expand() {
 	f := sdb.VerifNewFile(512)
 	root := f.AddPage()
@@ -69,15 +70,40 @@ func VH_C19_expand() {
 	d, err := f.Open()
 	sdb.VerifNoErr(err, "valid file opens")
 	st := &Statement{dbh: sqlittle.VerifWrap(d)}
-	lists := [][]string{{"*"}, {"b"}, {"*", "a"}, {"c", "*", "c"}, {"rowid", "*"}}
-	wants := [][]string{{"a", "b", "c"}, {"b"}, {"a", "b", "c", "a"}, {"c", "a", "b", "c", "c"}, {"rowid", "a", "b", "c"}}
-	k := sdb.VerifChoice(len(lists))
-	got, err := st.expandSelectColumns(sqsql.SelectStmt{Table: "t", Columns: lists[k]})
+	items := [5]string{"*", "a", "b", "c", "ROWID"} // the parser reports the keyword in upper case
+	n := 1 + sdb.VerifChoice(4+sdb.VerifTier())
+	text := "SELECT "
+	var want []string
+	for i := 0; i < n; i++ {
+		var k int
+		if i == 0 {
+			k = sdb.VerifShard(5)
+		} else {
+			k = sdb.VerifChoice(5)
+			text += ", "
+		}
+		text += items[k]
+		if k == 0 {
+			want = append(want, "a", "b", "c")
+		} else {
+			want = append(want, items[k])
+		}
+	}
+	text += " FROM t"
+	sdb.VerifDebugf("sql=%s", text)
+	parsed, err := sqsql.Parse(text)
+	sdb.VerifNoErr(err, "select statement parses")
+	sel, ok := parsed.(sqsql.SelectStmt)
+	sdb.VerifAssert(ok, "a SELECT statement")
+	if !ok {
+		return
+	}
+	got, err := st.expandSelectColumns(sel)
 	sdb.VerifNoErr(err, "expansion succeeds")
-	sdb.VerifAssert(len(got) == len(wants[k]), "number of columns after expanding *")
-	if len(got) == len(wants[k]) {
+	sdb.VerifAssert(len(got) == len(want), "number of columns after expanding *")
+	if len(got) == len(want) {
 		for i := range got {
-			sdb.VerifAssert(got[i] == wants[k][i], "* expands to all columns in definition order, in place")
+			sdb.VerifAssert(got[i] == want[i], "* expands to all columns in definition order, in place; named columns keep their position")
 		}
 	}
 	_, err = st.expandSelectColumns(sqsql.SelectStmt{Table: "nosuch", Columns: []string{"*"}})
